@@ -736,13 +736,15 @@ func (vm *VirtualMachine) eval(ctx context.Context) error {
 			if importsCount > 255 {
 				return errz.EvalErrorf("eval error: invalid imports count: %d", importsCount)
 			}
-			var names []string
-			for i := uint16(0); i < importsCount; i++ {
+			// The names lie on the stack in source order and are popped last
+			// to first: they are imported in source order
+			names := make([]string, importsCount)
+			for i := int(importsCount) - 1; i >= 0; i-- {
 				name, ok := vm.pop().(*object.String)
 				if !ok {
 					return errz.TypeErrorf("type error: object is not a string (got %s)", name.Type())
 				}
-				names = append(names, name.Value())
+				names[i] = name.Value()
 			}
 			from := make([]string, parentLen)
 			for i := int(parentLen - 1); i >= 0; i-- {
@@ -752,12 +754,13 @@ func (vm *VirtualMachine) eval(ctx context.Context) error {
 				}
 				from[i] = val.Value()
 			}
-			for _, name := range names {
+			imported := make([]object.Object, len(names))
+			for i, name := range names {
 				// check if the name matches a module
 				modulePath := filepath.Join(filepath.Join(from...), name)
 				module, err := vm.importModule(ctx, modulePath)
 				if err == nil {
-					vm.push(module)
+					imported[i] = module
 				} else {
 					// A module of that name that exists and fails is an error
 					// like any other: its code has run, in part
@@ -777,8 +780,13 @@ func (vm *VirtualMachine) eval(ctx context.Context) error {
 						return fmt.Errorf("import error: cannot import name %q from %q",
 							name, module.Name())
 					}
-					vm.push(attr)
+					imported[i] = attr
 				}
+			}
+			// The stores that follow take what was imported off the stack,
+			// the first name first
+			for i := len(imported) - 1; i >= 0; i-- {
+				vm.push(imported[i])
 			}
 		case op.PopTop:
 			vm.pop()
